@@ -10,7 +10,7 @@ import copy
 import numpy as np
 
 from ..core import violation, Discard
-from ..gen_scenes import gen_chain_scene, gen_contact_scene, add_knife_edge, rotate_contact_scene, gen_arm_on_floor_scene, gen_bar_on_supports_scene
+from ..gen_scenes import gen_belt_scene, gen_chain_scene, gen_contact_scene, add_knife_edge, rotate_contact_scene, gen_arm_on_floor_scene, gen_bar_on_supports_scene
 from .. import rot
 from ..scenes import build
 from ..seams import Sim
@@ -35,6 +35,7 @@ RULE = (
 )
 RULE += " Chain sessions may carry a user-defined nonholonomic (velocity-level) constraint. Fault F2 at the initial-condition fixed point (forced through the decision hook, or organic through an iteration budget of 1..3) with continue_with_unconverged on / off: assembly must raise, warn, or hand out values that satisfy the monitor."
 RULE += " A third of the runs build their System on an object that was assembled before with prototype bodies of other masses (then replaced); the equations-of-motion residual uses the mass matrix scattered from the bodies themselves."
+RULE += " Family belt (one run in ten): a body lying on a plane that is moved tangentially in time - at rest (sliding on the belt), moving with it (sticking) or otherwise; the slip velocity then has an explicit time part."
 COMPONENTS = {
     "real": ["consistent_initial_conditions / compute_I_F", "System.assemble / set_new_initial_state / deepcopy", "Rattle (to reach states)", "all contributions"],
     "stub": ["tqdm -> SimProgress"],
@@ -62,7 +63,11 @@ def gen(rng, tier, index):
         fam = "arm_on_floor"
     if fam == "contact" and (index // 5) % 3 == 2:
         fam = "bar_on_supports"
-    if fam == "bar_on_supports":
+    if index % 10 == 7:
+        fam = "belt"
+    if fam == "belt":
+        scene = gen_belt_scene(rng)
+    elif fam == "bar_on_supports":
         scene = gen_bar_on_supports_scene(rng)
     elif fam == "arm_on_floor":
         scene = gen_arm_on_floor_scene(rng)
@@ -78,22 +83,22 @@ def gen(rng, tier, index):
     mode = str(rng.choice(["initial", "reached"]))
     k = int(rng.integers(3, 40))
     dt = float(10 ** rng.uniform(-3, -2.2))
-    solver = gen_solver(rng, "Rattle", k, dt, tight=True, buggify=False, contacts=(fam in ("contact", "arm_on_floor", "bar_on_supports")))
+    solver = gen_solver(rng, "Rattle", k, dt, tight=True, buggify=False, contacts=(fam in ("contact", "arm_on_floor", "bar_on_supports", "belt")))
     corrupt = None
     if rng.random() < 0.5:
-        kinds = ["pen", "approach", "vel"] if fam in ("contact", "arm_on_floor", "bar_on_supports") else ["vel", "pos", "pos_point"]
+        kinds = ["pen", "approach", "vel"] if fam in ("contact", "arm_on_floor", "bar_on_supports", "belt") else ["vel", "pos", "pos_point"]
         corrupt = {"kind": str(rng.choice(kinds)), "pick": int(rng.integers(100)), "dir": rng.normal(size=3).tolist(), "size": float(10 ** rng.uniform(-4, -1))}
     plan = {"scene": scene, "family": fam, "mode": mode, "solver": solver, "corrupt": corrupt, "via": str(rng.choice(["build", "set_new_initial_state"]))}
-    if fam in ("contact", "arm_on_floor", "bar_on_supports") and rng.random() < 0.5:
+    if fam in ("contact", "arm_on_floor", "bar_on_supports", "belt") and rng.random() < 0.5:
         # fault F2 at the initial-condition fixed point: forced (hook) or organic (tiny iteration budget), with the
         # legal option continue_with_unconverged on or off
         plan["ic_fault"] = {"how": str(rng.choice(["forced", "budget"])), "continue": bool(rng.random() < 0.6), "max_iter": int(rng.integers(1, 4))}
     if fam == "contact" and rng.random() < 0.5:
         # the whole scene rigidly moved: floors become walls and ceilings, gravity points anywhere
         rotate_contact_scene(scene, rot.rand_quat(rng), rng.uniform(-1, 1, 3))
-    if rng.random() < 0.3:
+    if rng.random() < 0.3 and fam != "belt":
         scene["t0"] = float(np.round(rng.uniform(-3.0, 8.0), 3))  # the time origin is arbitrary
-    if fam not in ("contact", "arm_on_floor", "bar_on_supports"):
+    if fam not in ("contact", "arm_on_floor", "bar_on_supports", "belt"):
         add_knife_edge(rng, scene, prob=0.3)  # velocity-level constraint: gamma_dot(u_dot0) = 0 and W_gamma la_gamma0 in the monitor
     if index % 3 == 1:
         # API history (F8): the System was assembled before with prototype bodies that were then replaced
